@@ -116,7 +116,7 @@ pub fn check_case(case: &Case) -> CheckResult {
 
 pub fn run(tier: Tier, seed: u64) -> i32 {
     let stats = Stats::new(PROP, tier, seed);
-    let depth = tier.pick(3, 5);
+    let depth = tier.pick(4, 5);
     let mut types = chains(depth);
     types.extend(leaf_pair_maps());
     let per = 40;
@@ -145,7 +145,7 @@ pub fn run(tier: Tier, seed: u64) -> i32 {
     stats.space(json!({"space": "packed", "container_types": types.len(), "depth": depth, "leaf_categories": LEAVES, "positions": 4, "types_per_file": per}));
     // unpacked at the next smaller bound
     let small = chains(depth - 1);
-    let nsmall = if tier == Tier::Quick { small.len().min(400) } else { small.len() };
+    let nsmall = small.len();
     super::drive(
         &stats,
         nsmall * 4,
